@@ -135,6 +135,27 @@ def tool_matrix(full, sel):
     return base + [ext[sel % len(ext)], ext[(sel * 7 + 3) % len(ext)]]
 
 
+# ------------------------------------------------------------------ symbol stack x kinds of value (E13)
+SS_VALUES = ["5", "-1", "1.5", "\"hello\"", "\"" + "L" * 300 + "\"", "\"\"", "'ab'", "d0", "(1e308*1e308)-(1e308*1e308)"]
+
+
+def symstack_sources():
+    out = []
+    for v1 in SS_VALUES:
+        for v2 in SS_VALUES:
+            for shape in range(4):
+                if shape == 0:
+                    body = "s\tset %s\n\tpushv ,s\ns\tset %s\nt\tset %s\n\tpopv ,s\n\tmessage \"\\{s}\"\ns\tset %s\n" % (v1, v2, v2, v1)
+                elif shape == 1:
+                    body = "s\tset %s\n\tpushv st,s\n\tpushv st,s\ns\tset %s\n\tpopv st,s\n\tpopv st,s\n\tpopv st,s\n" % (v1, v2)
+                elif shape == 2:
+                    body = "s\tset %s\nu\tset %s\n\tpushv st,s,u\n\tpopv st,u,s\ns\tset %s\nu\tset %s\n" % (v1, v2, v2, v1)
+                else:
+                    body = "s\tset %s\n\tpushv st,s\ns\tset %s\n" % (v1, v2)  # never popped
+                out.append("\tcpu 68000\n" + body + "xq2p\tset fwq2p\nfwq2p\tequ 5\n")
+    return out
+
+
 # ------------------------------------------------------------------ line lengths around buffer capacities (E12)
 LL_LENGTHS = list(range(1010, 1032)) + list(range(1140, 1160)) + list(range(2040, 2052)) + [254, 255, 256, 257, 4095, 4096, 4097]
 LL_SHAPES = ["plain", "macro", "irp", "rept", "macro-tabs", "call", "comment", "string"]
@@ -540,6 +561,8 @@ def plan(tier, seed):
                 cases.append({"gen": "symfault", "test": t.name, "lo": lo, "hi": min(npos, lo + 250)})
         else:
             cases.append({"gen": "symfault", "test": t.name, "sample": 20, "seed": mix(seed, "symf", t.name)})
+    # E13 symbol stack x kinds of value
+    cases.append({"gen": "symstack"})
     # E12 one line of critical length per program, in eight contexts
     for sh in LL_SHAPES:
         cases.append({"gen": "longline", "shape": sh})
@@ -1153,6 +1176,11 @@ def _run_case(sim, case, acc):
                 acc.seen_cls.discard(cls)
                 acc.bump(acc.probes, "hang_ignored_while_or_recursive_macro")
         acc.sample = {"space": "E11 symbol faults", "golden": t.name, "positions": len(pos)}
+    elif g == "symstack":
+        srcs = symstack_sources()
+        for i, src in enumerate(srcs):
+            run_one(sim, acc, "asl", sc_asl(src, cpu=10), "E13 symbol stack %d" % i, "symbol-stack")
+        acc.sample = {"space": "E13", "programs": len(srcs)}
     elif g == "longline":
         for n in LL_LENGTHS:
             src = longline_source(n, case["shape"])
